@@ -132,7 +132,8 @@ pub enum Move {
 
 #[derive(Clone, Debug, PartialEq, Eq, Hash, PartialOrd, Ord)]
 pub enum Fault {
-    Rec { q: Key, sec: u8, idx: u16, kind: RecFault },
+    /// `rt` = type of the record at that position in the honest answer (part of the scene)
+    Rec { q: Key, sec: u8, idx: u16, rt: RecordType, kind: RecFault },
     Resp { q: Key, mv: Move },
 }
 
@@ -189,10 +190,13 @@ impl Fault {
             }
         }
         match self {
-            Fault::Rec { kind, .. } => match kind {
+            Fault::Rec { kind, rt, .. } => match kind {
                 RecFault::RaiseTtl => "raise-ttl".into(),
                 RecFault::Resign(k) => format!("resign({})", kc(k)),
-                _ => "edit-record".into(),
+                RecFault::Drop => format!("drop-record({rt})"),
+                RecFault::FlipBit | RecFault::MarkerRdata => format!("change-rdata({rt})"),
+                RecFault::ChangeOwner => format!("change-owner({rt})"),
+                RecFault::StripRrsigs => format!("strip-rrsigs({rt})"),
             },
             Fault::Resp { mv, .. } => match mv {
                 Move::ForgeUnsigned => "forge-unsigned".into(),
@@ -220,7 +224,7 @@ impl Fault {
     }
     pub fn to_json(&self) -> Value {
         match self {
-            Fault::Rec { q, sec, idx, kind } => json!({"at": {"name": q.0, "type": q.1}, "section": sec, "index": idx, "record_fault": self.kind_tag(), "k": match kind { RecFault::Resign(k) => k.tag(), _ => "" }}),
+            Fault::Rec { q, sec, idx, rt, kind } => json!({"at": {"name": q.0, "type": q.1}, "section": sec, "index": idx, "record_type": u16::from(*rt), "record_fault": self.kind_tag(), "k": match kind { RecFault::Resign(k) => k.tag(), _ => "" }}),
             Fault::Resp { q, mv } => {
                 let mut v = json!({"at": {"name": q.0, "type": q.1}, "move": self.kind_tag()});
                 match mv {
@@ -250,7 +254,7 @@ impl Fault {
                 "strip-rrsigs" => RecFault::StripRrsigs,
                 _ => RecFault::Resign(k()?),
             };
-            return Some(Fault::Rec { q, sec: v["section"].as_u64()? as u8, idx: v["index"].as_u64()? as u16, kind });
+            return Some(Fault::Rec { q, sec: v["section"].as_u64()? as u8, idx: v["index"].as_u64()? as u16, rt: RecordType::from(v["record_type"].as_u64().unwrap_or(0) as u16), kind });
         }
         let mv = v["move"].as_str()?;
         let mv = if mv == "forge-unsigned" {
@@ -766,7 +770,7 @@ pub fn singles_at(script_probe: &Script, q: &Query, honest: &Message) -> Vec<Fau
                 }
             }
             for kind in kinds {
-                out.push(Fault::Rec { q: k.clone(), sec, idx: idx as u16, kind });
+                out.push(Fault::Rec { q: k.clone(), sec, idx: idx as u16, rt: r.record_type(), kind });
             }
         }
     }
